@@ -3,6 +3,7 @@ use crate::Outcome;
 use serde_json::Value;
 
 pub mod c04;
+pub mod c06;
 pub mod c12;
 pub mod c14;
 pub mod c19;
@@ -10,6 +11,7 @@ pub mod c19;
 pub fn run(id: &str, thorough: bool) -> Option<Outcome> {
     match id {
         "C04" => Some(c04::run(thorough)),
+        "C06" => Some(c06::run(thorough)),
         "C12" => Some(c12::run(thorough)),
         "C14" => Some(c14::run(thorough)),
         "C19" => Some(c19::run(thorough)),
@@ -20,6 +22,7 @@ pub fn run(id: &str, thorough: bool) -> Option<Outcome> {
 pub fn replay(id: &str, ex: &Value) -> Option<Report> {
     match id {
         "C04" => Some(c04::replay(ex)),
+        "C06" => Some(c06::replay(ex)),
         "C12" => Some(c12::replay(ex)),
         "C14" => Some(c14::replay(ex)),
         "C19" => Some(c19::replay(ex)),
